@@ -12,28 +12,84 @@ use refmodels::gf2::{BitVec, Mat};
 use refmodels::xoshiro::{self, Kind};
 use serde_json::json;
 
+/// The reference step models for the 16 generators that are stepped word by word.
+#[derive(Clone, Copy, Debug, PartialEq, Eq)]
+pub enum RefModel {
+    Xo(Kind),
+    Xor128,
+}
+
+impl RefModel {
+    pub fn for_type(name: &str) -> Option<RefModel> {
+        if name == "XorShiftRng" {
+            Some(RefModel::Xor128)
+        } else {
+            Kind::from_name(name).map(RefModel::Xo)
+        }
+    }
+    pub fn state_bits(self) -> usize {
+        match self {
+            RefModel::Xo(k) => k.state_bits(),
+            RefModel::Xor128 => 128,
+        }
+    }
+    /// (reference output, reference successor as seed bytes) after `steps` steps; outputs collected
+    pub fn run(self, seed: &[u8], steps: usize) -> (Vec<u64>, Vec<Vec<u8>>) {
+        let mut outs = Vec::with_capacity(steps);
+        let mut states = Vec::with_capacity(steps);
+        match self {
+            RefModel::Xo(k) => {
+                let mut s = xoshiro::state_from_seed(k, seed);
+                for _ in 0..steps {
+                    outs.push(xoshiro::step(k, &mut s));
+                    states.push(xoshiro::seed_from_state(k, &s));
+                }
+            }
+            RefModel::Xor128 => {
+                let mut s = refmodels::xor128::state_from_seed(seed);
+                for _ in 0..steps {
+                    outs.push(refmodels::xor128::step(&mut s) as u64);
+                    states.push(refmodels::xor128::seed_from_state(&s));
+                }
+            }
+        }
+        (outs, states)
+    }
+}
+
 /// Lock-step run: from_seed(seed) against the model for `steps` native outputs; then the state.
 /// Returns the number of steps compared or a description of the first disagreement.
 pub fn lockstep(ty: &dyn GenType, kind: Kind, seed: &[u8], steps: usize) -> Result<u64, (String, serde_json::Value)> {
+    lockstep_model(ty, RefModel::Xo(kind), seed, steps)
+}
+
+pub fn lockstep_model(ty: &dyn GenType, model: RefModel, seed: &[u8], steps: usize) -> Result<u64, (String, serde_json::Value)> {
     let info = ty.info();
     let mk = |what: &str, extra: serde_json::Value| (what.to_string(), json!({"kind":"lockstep","type":info.name,"seed":hex(seed),"steps":steps,"detail":extra}));
     let mut g = from_seed_guarded(ty, seed).map_err(|e| mk(&e, json!(null)))?;
-    let mut s = xoshiro::state_from_seed(kind, seed);
     // the state image must be the seed itself
     if let Some(img) = g.ser() {
         if img != seed {
             return Err(mk("state image after from_seed differs from the seed bytes", json!({"image": hex(&img)})));
         }
     }
+    // long runs are compared in windows so that the reference states need not all be kept
+    let (outs, states) = if steps <= 64 { model.run(seed, steps) } else { (vec![], vec![]) };
+    let mut long_model = if steps > 64 { Some(LongRef::new(model, seed)) } else { None };
     for i in 0..steps {
-        let e = xoshiro::step(kind, &mut s);
+        let (e, sb_opt): (u64, Option<Vec<u8>>) = match long_model.as_mut() {
+            Some(m) => {
+                let e = m.step();
+                (e, if i == 0 || i + 1 == steps { Some(m.state_bytes()) } else { None })
+            }
+            None => (outs[i], if i == 0 || i + 1 == steps { Some(states[i].clone()) } else { None }),
+        };
         let r = guarded(|| native(&mut g, info.word_bits)).map_err(|o| mk(&format!("step {} panicked: {:?}", i, o), json!(null)))?;
         if r != e {
             return Err(mk(&format!("native output {} is {:#x}, reference {:#x}", i, r, e), json!({"position": i, "observed": format!("{:#x}", r), "expected": format!("{:#x}", e)})));
         }
-        if i == 0 || i + 1 == steps {
+        if let Some(sb) = sb_opt {
             // successor state via == against from_seed(reference state)
-            let sb = xoshiro::seed_from_state(kind, &s);
             if sb.iter().any(|&b| b != 0) {
                 let e = ty.from_seed(&sb);
                 if g.eq_dyn(e.as_ref()) != Some(true) {
@@ -45,14 +101,39 @@ pub fn lockstep(ty: &dyn GenType, kind: Kind, seed: &[u8], steps: usize) -> Resu
     Ok(steps as u64)
 }
 
-fn ref_matrix(kind: Kind) -> Mat {
-    let n = kind.state_bits();
+struct LongRef {
+    model: RefModel,
+    xo: [u64; 8],
+    xs: [u32; 4],
+}
+impl LongRef {
+    fn new(model: RefModel, seed: &[u8]) -> LongRef {
+        match model {
+            RefModel::Xo(k) => LongRef { model, xo: xoshiro::state_from_seed(k, seed), xs: [0; 4] },
+            RefModel::Xor128 => LongRef { model, xo: [0; 8], xs: refmodels::xor128::state_from_seed(seed) },
+        }
+    }
+    fn step(&mut self) -> u64 {
+        match self.model {
+            RefModel::Xo(k) => xoshiro::step(k, &mut self.xo),
+            RefModel::Xor128 => refmodels::xor128::step(&mut self.xs) as u64,
+        }
+    }
+    fn state_bytes(&self) -> Vec<u8> {
+        match self.model {
+            RefModel::Xo(k) => xoshiro::seed_from_state(k, &self.xo),
+            RefModel::Xor128 => refmodels::xor128::seed_from_state(&self.xs),
+        }
+    }
+}
+
+pub fn ref_matrix(model: RefModel) -> Mat {
+    let n = model.state_bits();
     let col = (0..n)
         .map(|i| {
             let seed = alphabet::with_bits(n / 8, &[i]);
-            let mut s = xoshiro::state_from_seed(kind, &seed);
-            xoshiro::step(kind, &mut s);
-            bits(&xoshiro::seed_from_state(kind, &s))
+            let (_, st) = model.run(&seed, 1);
+            bits(&st[0])
         })
         .collect();
     Mat { rows: n, cols: n, col }
@@ -197,7 +278,7 @@ pub fn run(reg: &dyn Registry, ctx: &Ctx) -> Outcome {
             match linear::extract(*ty, LinOp::Step) {
                 Ok(ex) => {
                     ctx.add("basis_executions", ex.executions);
-                    let tref = ref_matrix(kind);
+                    let tref = ref_matrix(RefModel::Xo(kind));
                     if !ex.c.is_zero() {
                         ctx.violation(&format!("C01:{}:engine-constant", info.name), &format!("{}: one step from the all-zero state does not stay zero (affine constant {})", info.name, hex(&ex.c.to_bytes())), json!({"kind":"state-step","type":info.name,"state":hex(&vec![0u8;len])}));
                     }
